@@ -313,6 +313,19 @@ pub fn space(thorough: bool) -> Vec<Prog> {
 pub fn run(tier: &str) -> i32 {
     let mut rep = Report::new("C13", tier);
     let mut progs = space(true);
+    // module-scope variables of other address spaces (private, workgroup) declared before everything else: they are not
+    // push constants, whatever their position (every 3rd program)
+    {
+        let n0 = progs.len();
+        for i in 0..n0 {
+            if tier == "thorough" || hash64(&progs[i].key) % 3 == 1 {
+                let src = format!("var<private> unbound_private: array<vec4<f32>, 3>;\nvar<workgroup> unbound_wg: array<u32, 5>;\n{}", progs[i].src);
+                if naga_check(&src).is_ok() {
+                    progs.push(Prog { key: format!("{}|unbound-neighbours", progs[i].key), src, expect: progs[i].expect, groups: progs[i].groups });
+                }
+            }
+        }
+    }
     // the push constant's type (and every other built-in type after a `: `) written through an `alias`
     {
         let n0 = progs.len();
